@@ -22,6 +22,8 @@ import (
 	"crypto/sha256"
 	"errors"
 	"fmt"
+	"os"
+	"path/filepath"
 	"runtime"
 	"sort"
 	"strings"
@@ -343,6 +345,7 @@ type vc20World struct {
 	auth    map[int]int // rekeyed: account index -> index of the key that signs for it
 	leaseN  int
 	stats   map[string]int
+	dir     string
 }
 
 type vc20Asset struct {
@@ -390,15 +393,37 @@ func vc20Open(t *testing.T, r *vRand, kind vc20Kind, cv protocol.ConsensusVersio
 	bal := bookkeeping.MakeGenesisBalances(accts, w.sink, w.pool)
 	var genHash crypto.Digest
 	copy(genHash[:], r.Bytes(32))
+	// on-disk ledgers (WAL: readers never see "database table is locked" while the trackers
+	// flush, unlike the shared-cache in-memory mode) on tmpfs
+	base := os.Getenv("VERIF_C20_DIR")
+	if base == "" {
+		base = "/dev/shm"
+		if _, err := os.Stat(base); err != nil {
+			base = os.TempDir()
+		}
+	}
+	dir, err := os.MkdirTemp(base, "verif_c20_")
+	require.NoError(t, err)
+	w.dir = dir
+	genBlock, err := bookkeeping.MakeGenesisBlock(cv, bal, "test", genHash)
+	require.NoError(t, err)
 	cfg := config.GetDefaultLocal()
-	w.l1 = newSimpleLedgerFull(t, bal, cv, genHash, cfg)
-	w.l2 = newSimpleLedgerFull(t, bal, cv, genHash, cfg)
+	cfg.Archival = true
+	open := func(name string) *Ledger {
+		l, err := OpenLedger(logging.Base(), filepath.Join(dir, name), false, ledgercore.InitState{
+			Block: genBlock, Accounts: bal.Balances, GenesisHash: genHash}, cfg)
+		require.NoError(t, err)
+		return l
+	}
+	w.l1 = open("l1")
+	w.l2 = open("l2")
 	return w
 }
 
 func (w *vc20World) close() {
 	w.l1.Close()
 	w.l2.Close()
+	os.RemoveAll(w.dir)
 }
 
 func (w *vc20World) addr(i int) basics.Address {
@@ -744,6 +769,9 @@ func (w *vc20World) genRich(rnd basics.Round, est map[int]uint64) (vc20Group, bo
 		}
 		return w.group("axfer", tx), true
 	case 5: // key registration (online with a short validity window, or offline)
+		if s == nk {
+			return vc20Group{}, false // the last account never holds keys: see the bogus expired / absent mutants
+		}
 		tx := transactions.Transaction{Type: protocol.KeyRegistrationTx, Header: hdr(minFee)}
 		if r.Intn(4) != 0 {
 			copy(tx.VotePK[:], r.Bytes(32))
@@ -884,7 +912,7 @@ func vc20CopyBlock(b bookkeeping.Block) bookkeeping.Block {
 }
 
 // every generate-computed field of blk, altered one at a time
-func (w *vc20World) mutants(blk bookkeeping.Block, unfinishedPayout uint64) []vc20Mut {
+func (w *vc20World) mutants(blk bookkeeping.Block, unfinishedPayout uint64, prevTimeStamp int64) []vc20Mut {
 	r := w.r
 	var ms []vc20Mut
 	add := func(name string, ok bool, f func(b *bookkeeping.Block)) {
@@ -953,11 +981,14 @@ func (w *vc20World) mutants(blk bookkeeping.Block, unfinishedPayout uint64) []vc
 		x.StateProofOnlineTotalWeight.Raw += 1 << 62
 		b.StateProofTracking[protocol.StateProofBasic] = x
 	})
+	// an account that never registered keys is neither expired nor absent (the validator does not
+	// require the lists to be complete, so an account with really expired keys would be accepted)
+	keyless := w.addrs[len(w.addrs)-1]
 	add("expired_bogus", true, func(b *bookkeeping.Block) {
-		b.ExpiredParticipationAccounts = append(b.ExpiredParticipationAccounts, w.addrs[0])
+		b.ExpiredParticipationAccounts = append(b.ExpiredParticipationAccounts, keyless)
 	})
 	add("absent_bogus", true, func(b *bookkeeping.Block) {
-		b.AbsentParticipationAccounts = append(b.AbsentParticipationAccounts, w.addrs[0])
+		b.AbsentParticipationAccounts = append(b.AbsentParticipationAccounts, keyless)
 	})
 	add("expired_dup", len(blk.ExpiredParticipationAccounts) > 0, func(b *bookkeeping.Block) {
 		b.ExpiredParticipationAccounts = append(b.ExpiredParticipationAccounts, b.ExpiredParticipationAccounts[0])
@@ -965,7 +996,8 @@ func (w *vc20World) mutants(blk bookkeeping.Block, unfinishedPayout uint64) []vc
 	add("bonus", true, func(b *bookkeeping.Block) { b.Bonus.Raw++ })
 	add("round", true, func(b *bookkeeping.Block) { b.BlockHeader.Round++ })
 	add("branch", true, func(b *bookkeeping.Block) { b.Branch[1] ^= 1 })
-	add("timestamp", true, func(b *bookkeeping.Block) { b.TimeStamp += 1 << 40 })
+	// (after a zero timestamp any timestamp is allowed)
+	add("timestamp", prevTimeStamp > 0, func(b *bookkeeping.Block) { b.TimeStamp += 1 << 40 })
 	add("congestion_tax", true, func(b *bookkeeping.Block) { b.CongestionTax++ })
 	add("upgrade_state", true, func(b *bookkeeping.Block) { b.NextProtocolApprovals++ })
 	// signatures: the evaluator's verifier must reject with an empty AND with a warm cache (which
@@ -1296,7 +1328,7 @@ func (w *vc20World) round(out *vOut, pools map[int]execpool.BacklogPool) bool {
 	tMut := time.Now()
 	mutT := []interface{}{}
 	if valOK {
-		for _, m := range w.mutants(blk, ublk.ProposerPayout().Raw) {
+		for _, m := range w.mutants(blk, ublk.ProposerPayout().Raw, prevHdr.TimeStamp) {
 			rej := 0
 			if m.ok {
 				var merr error
